@@ -96,7 +96,7 @@ package trace
 // ======================================================================== C20 configuration: bad values never crash the host
 // No run-time panic for every integer the environment or an option can supply (make(chan)/make([]T) sizes).
 //@ func NewBatchSpanProcessor(exporter SpanExporter, options []BatchSpanProcessorOption) (sp SpanProcessor)
-//@   prop C20
+//@   prop C20 C01
 //@   overflow assumed
 //@   requires forall i in 0 .. len(options) : options[i] != nil
 //@   ensures sp != nil
@@ -383,3 +383,82 @@ package trace
 //@   assert@return#4 : len(procs(p)) == 0
 //@   canary@return#3 KF-C15-shutdown-cancelled-ctx : len(procs(p)) == 0
 //@   loop#1 invariant p.isShutdown.v != 0 && p.spanProcessors.v == old(p.spanProcessors.v)
+
+// ======================================================================== C01 batch span processor
+// The batch is only touched under batchMutex and never holds more than MaxExportBatchSize spans. Only the worker goroutine
+// (processQueue, then drainQueue - called one after the other by the goroutine NewBatchSpanProcessor starts) appends to it;
+// everybody else (exportSpans, also when called from ForceFlush) only ever shrinks it: that is the rely of the worker.
+//@ guarded_by batchSpanProcessor.batchMutex: batch
+//@ lockinv batchSpanProcessor.batchMutex: len(self.batch) <= self.o.MaxExportBatchSize
+//@ lockrely batchSpanProcessor.batchMutex owner processQueue, drainQueue: len(self.batch) <= old(len(self.batch))
+
+// exportSpans: the exporter is called only with batchMutex held, with the whole batch (1..Max spans), and the batch is
+// emptied in the same critical section whether or not the export failed - so no span is handed over twice
+//@ func (bsp *batchSpanProcessor) exportSpans(ctx context.Context) (err error)
+//@   prop C01
+//@   acquires bsp.batchMutex
+//@   unchecked frame,no-panic timer, context and third-party exporter; bsp.e is nil only if nothing was ever enqueued (channel history)
+//@   requires bsp != nil
+//@   modifies bsp.batch, elemscap(bsp.batch)
+//@   ensures len(bsp.batch) == 0
+//@   assert@call ExportSpans#* : holds(bsp.batchMutex) && len($arg2) >= 1 && len($arg2) <= bsp.o.MaxExportBatchSize && samearray($arg2, bsp.batch) && len($arg2) == len(bsp.batch)
+
+// known finding: a configured maximum of 0 is used as "export every span at once": batches of 1 (processQueue) and of any
+// size (drainQueue, whose test is == 0) leave the processor
+//@ func (bsp *batchSpanProcessor) processQueue()
+//@   prop C01
+//@   acquires bsp.batchMutex
+//@   known KF-C01-batch-size-zero when bsp.o.MaxExportBatchSize == 0
+//@   unchecked frame,no-panic timers, channels and the error handler are outside the contracts
+//@   requires bsp != nil && bsp.o.MaxExportBatchSize >= 0 && len(bsp.batch) == 0
+//@   modifies bsp.batch, elemscap(bsp.batch)
+//@   ensures bsp.o.MaxExportBatchSize > 0 ==> len(bsp.batch) < bsp.o.MaxExportBatchSize
+//@   loop#1 invariant bsp.o.MaxExportBatchSize > 0 ==> len(bsp.batch) < bsp.o.MaxExportBatchSize
+
+//@ func (bsp *batchSpanProcessor) drainQueue()
+//@   prop C01
+//@   acquires bsp.batchMutex
+//@   known KF-C01-batch-size-zero when bsp.o.MaxExportBatchSize == 0
+//@   unchecked frame,no-panic channels and the error handler are outside the contracts
+//@   requires bsp != nil && bsp.o.MaxExportBatchSize >= 0 && (bsp.o.MaxExportBatchSize > 0 ==> len(bsp.batch) < bsp.o.MaxExportBatchSize)
+//@   modifies bsp.batch, elemscap(bsp.batch)
+//@   ensures len(bsp.batch) == 0
+//@   loop#1 invariant bsp.o.MaxExportBatchSize > 0 ==> len(bsp.batch) < bsp.o.MaxExportBatchSize
+
+// enqueue: an unsampled span is neither queued nor counted; a sampled one is either sent to the queue (exactly once) or, in
+// non-blocking mode with a full queue, counted as dropped (exactly once) - never both, never neither
+//@ ghost var bspSent int
+//@ ghost var bspDropped int
+//@ func (bsp *batchSpanProcessor) enqueueDrop(ctx context.Context, sd ReadOnlySpan) (ok bool)
+//@   prop C01
+//@   unchecked frame channel send, atomic counter
+//@   requires bsp != nil && sd != nil
+//@   ghost@entry : bspSent = 0
+//@   ghost@entry : bspDropped = 0
+//@   assert@call send#* : sd.SpanContext().IsSampled() && $arg0 == bsp.queue && $arg1 == sd
+//@   ghost@call send#* : bspSent = bspSent + 1
+//@   assert@call AddUint32#* : $arg1 == 1
+//@   ghost@call AddUint32#* : bspDropped = bspDropped + 1
+//@   assert@return#* : (sd.SpanContext().IsSampled() ==> bspSent + bspDropped == 1) && (!sd.SpanContext().IsSampled() ==> bspSent + bspDropped == 0) && ($ret0 == (bspSent == 1))
+
+//@ func (bsp *batchSpanProcessor) enqueueBlockOnQueueFull(ctx context.Context, sd ReadOnlySpan) (ok bool)
+//@   prop C01
+//@   unchecked frame,no-panic channel send; ctx comes from context.TODO()
+//@   requires bsp != nil && sd != nil
+//@   ghost@entry : bspSent = 0
+//@   assert@call send#* : sd.SpanContext().IsSampled() && $arg0 == bsp.queue && $arg1 == sd
+//@   ghost@call send#* : bspSent = bspSent + 1
+//@   assert@return#* : bspSent <= 1 && ($ret0 == (bspSent == 1)) && (!sd.SpanContext().IsSampled() ==> bspSent == 0)
+
+// OnEnd: nothing is enqueued after Shutdown set `stopped`, nor without an exporter
+//@ func (bsp *batchSpanProcessor) OnEnd(s ReadOnlySpan)
+//@   prop C01
+//@   unchecked frame
+//@   requires bsp != nil && s != nil
+//@   assert@call batchSpanProcessor.enqueue#* : bsp.stopped.v == 0 && bsp.e != nil && $arg1 == s
+//@ func (bsp *batchSpanProcessor) enqueue(sd ReadOnlySpan)
+//@   prop C01
+//@   unchecked frame
+//@   requires bsp != nil && sd != nil
+//@   assert@call batchSpanProcessor.enqueueDrop#* : !bsp.o.BlockOnQueueFull && $arg2 == sd
+//@   assert@call batchSpanProcessor.enqueueBlockOnQueueFull#* : bsp.o.BlockOnQueueFull && $arg2 == sd
